@@ -244,6 +244,10 @@ def discharge(site):
         if m:
             if _guarded(v, bb, [r'^HashMap::contains_key\(' + re.escape(m.group(1)) + r', ' + re.escape(m.group(2)) + r'\)$'], at):
                 return 'contains_key(k) dominates get(k).unwrap()'
+        # a slot that is Some on every path reaching the unwrap: forward must-analysis (gen: `x = Some(..)` and the Some-edge of a test
+        # of x; kill: any other write to x or `&mut x` handed to a call)
+        if re.match(r'^(self|\w+)(\.\w+)+$', at) and _definitely_some(v, at, bb):
+            return 'slot is Some on every path reaching the unwrap (assigned Some or tested), with no intervening write'
         # ensure-some: `if x.is_none() { x = Some(..) }` then x.as_mut().unwrap()
         m = re.match(r'^Option::(?:as_mut|as_ref)\((.*)\)$', at)
         if m:
@@ -427,3 +431,43 @@ def dispatch_agreement(F, site):
         if not prims.guarded_any(cv, cbb, ['^' + re.escape(passed + path) + ' is ' + exp + '$']):
             return None
     return 'dispatch agreement: all %d callers test `%s is %s` on the value they pass' % (len(callers), path or 'arg', exp)
+
+
+
+def _definitely_some(v, tgt, bb):
+    """Must-analysis: at entry of block `bb` the Option place rendered `tgt` is Some on every path."""
+    succ, pred, edge = v.graph()
+    gen, kill = set(), set()
+    for (i, s, pe, rve) in v.field_writes():
+        if show(pe) == tgt:
+            if rve[0] == 'agg' and rve[2] == 'Some':
+                gen.add(i)
+            elif s.get('synthetic') != 'take' or True:
+                if not (rve[0] == 'agg' and rve[2] == 'Some'):
+                    kill.add(i)
+    for m in prims.mutations(v):
+        if show(m.path) == tgt and m.kind in ('mutcall', 'escape'):
+            kill.add(m.bb)
+    for en in prims.edge_nodes_matching(v, ['^' + re.escape(tgt) + r' is Some$']):
+        gen.add(en)
+    if not gen:
+        return False
+    nodes = list(succ.keys())
+    out = {n: True for n in nodes}
+    inn = {n: True for n in nodes}
+    inn[0] = False
+    changed = True
+    it = 0
+    while changed and it < 200:
+        it += 1
+        changed = False
+        for n in nodes:
+            ps = pred.get(n, [])
+            i_ = (all(out[p] for p in ps) if ps else False) if n != 0 else False
+            o_ = True if n in gen and n not in kill else (False if n in kill else i_)
+            if n in gen and n in kill:
+                o_ = False
+            if i_ != inn[n] or o_ != out[n]:
+                inn[n], out[n] = i_, o_
+                changed = True
+    return bool(inn.get(bb))
